@@ -430,6 +430,10 @@ def normalize_power(array, power=1):
         # integer (grey-level) maps would wrap around when squared in their
         # own type
         array = array.astype(float)
+    elif array.dtype.kind in 'fc':
+        # half and single precision maps are normalized in double precision
+        # (their sum of squares overflows or is rounded in the narrow type)
+        array = array.astype(np.result_type(array.dtype, np.float64))
     return array * np.sqrt(power/np.sum(np.abs(array)**2))
 
 
